@@ -117,6 +117,8 @@ def main():
                 rec["thorough"] = run_check(target, "thorough")
         finally:
             sh(["git", "-C", str(REPO), "checkout", "--", "."])
+            for g in ("gen_tables", "gen_wrappers", "gen_effects"):       # the generated Lean files follow the source back
+                sh(["/venv/bin/python", str(VERIF / "harness" / f"{g}.py")])
         assert repo_clean()
         results[sid] = rec
         out_path.write_text(json.dumps(results, indent=1, sort_keys=True))
